@@ -92,28 +92,56 @@ WORLDS = dict(
     single=dict(universe=[("x", "Plain", {"id": 1, "name": "a"})]),
     twin=dict(universe=[("x", "Plain", {"id": 1, "name": "a"}), ("y", "Plain", {"id": 1, "name": "t"})]),
     seeded=dict(universe=[("x", "Plain", {"id": 1, "name": "a"})], seed={"plain": [(1, "s")]}),
+    # instances that are FALSY (class defines __bool__ / only __len__): one falsy + one truthy row
+    # in the database, one falsy new object; same alphabet, same oracle
+    # Session(autoflush=False): query / merge do not flush, begin_nested() still must
+    single_noaf=dict(universe=[("x", "Plain", {"id": 1, "name": "a"})], autoflush=False),
+    falsy=dict(universe=[("x", "FalsyB", {"id": 3, "name": "a", "flag": 0})], seed={"falsyb": [(1, "s", 0), (2, "t", 1)]}, cls="FalsyB"),
+    falsylen=dict(universe=[("x", "FalsyL", {"id": 3, "name": "a", "flag": 0})], seed={"falsyl": [(1, "s", 0), (2, "t", 1)]}, cls="FalsyL"),
+)
+# cascade worlds: a parent and a (not yet attached) child, one world per cascade preset of
+# Parent.children; autoflush off; oracle = checks (1) and (2) only (no model prediction: which
+# object a cascade reaches is C39's subject, here every transition that happens must be a
+# documented edge announced by exactly its event)
+CASCADE_WORLDS = dict(
+    casc_su=("ParentSU", "ChildSU", "save-update"),
+    casc_all=("Parent", "Child", "all"),
+    casc_do=("ParentDO", "ChildDO", "all, delete-orphan"),
 )
 DEPTH = dict(
-    quick=dict(single=6, twin=4, seeded=5),
-    thorough=dict(single=7, twin=5, seeded=5),
+    quick=dict(single=6, twin=4, seeded=5, single_noaf=5, falsy=5, falsylen=4, casc_su=5, casc_all=6, casc_do=6),
+    thorough=dict(single=7, twin=5, seeded=5, single_noaf=6, falsy=5, falsylen=5, casc_su=6, casc_all=7, casc_do=7),
 )
-BORN = dict(quick=dict(single=1, twin=1, seeded=1), thorough=dict(single=2, twin=1, seeded=2))
+BORN = dict(
+    quick=dict(single=1, twin=1, seeded=1, single_noaf=1, falsy=2, falsylen=2),
+    thorough=dict(single=2, twin=1, seeded=2, single_noaf=1, falsy=2, falsylen=2),
+)
 ROLLBACK_OPS = ("rollback", "sp_rollback")
-IMPLICIT_FLUSH_OPS = ("commit", "begin_nested", "sp_commit", "query", "merge")
+IMPLICIT_FLUSH_OPS = ("commit", "begin_nested", "begin_nested_nf", "sp_commit", "query", "merge")
 
 
 def make_cfg(world, eoc):
+    if world in CASCADE_WORLDS:
+        pc, cc, _ = CASCADE_WORLDS[world]
+        return dict(
+            universe=[("c", cc, {"id": 1, "name": "c"}), ("p", pc, {"id": 1, "name": "p"})],
+            eoc=eoc,
+            world=world,
+            autoflush=False,
+            tables=(W.CLASSES[pc].__table__.name, W.CLASSES[cc].__table__.name),
+        )
     cfg = dict(WORLDS[world])
     cfg["eoc"] = eoc
     cfg["world"] = world
-    cfg["tables"] = ("plain",)
+    cfg.setdefault("cls", "Plain")
+    cfg["tables"] = (M.TABLE_OF[cfg["cls"]],)
     return cfg
 
 
 # ------------------------------------------------------------------ alphabet
 
 
-def enabled(ms, max_born):
+def enabled(ms, max_born, cls="Plain"):
     """ops enabled in model state ms, simplest first.  Everything the API
     accepts is enabled (misuse included); exceptions are listed in META."""
     ops = []
@@ -128,21 +156,22 @@ def enabled(ms, max_born):
     ops += [("flush",), ("commit",), ("rollback",), ("close",)]
     if ms.nsp < 2:
         ops.append(("begin_nested",))
+        ops.append(("begin_nested_nf",))  # the same inside ``with session.no_autoflush:``
     if ms.nsp > 0:
         ops += [("sp_rollback",), ("sp_commit",)]
     for n in names:
         o = ms.objs[n]
         ops.append(("set", n, "name", "b" if o.vals.get("name") != "b" else "c"))
     free = max_born - ms.nborn
-    if ms.would_bear("Plain") <= free:
-        ops.append(("query", "Plain"))
+    if ms.would_bear(cls) <= free:
+        ops.append(("query", cls))
     if free >= 1:
-        ops.append(("merge", "Plain", (("id", 1), ("name", "m"))))
+        ops.append(("merge", cls, (("id", 1), ("name", "m"))))
     for n in names:
         o = ms.objs[n]
         ops.append(("make_transient", n))
         reinit = tuple(sorted(o.vals.items())) if o.state == T else None
-        if o.state != T or o.vals.get("id") in ms.view().get("plain", {}):
+        if o.state != T or o.vals.get("id") in ms.view().get(M.TABLE_OF[cls], {}):
             # make_transient_to_detached asserts "this object has a row": enabled for
             # transient objects only when that is true (misuse on non-transient objects stays)
             ops.append(("mttd", n, reinit))
@@ -180,10 +209,10 @@ def describe(ms, name, full=True, op=None):
     return s
 
 
-def path_problem(before, after, evs, op, ms, name, is_rollback):
-    """(2): events must form a path of the documented machine from before to after"""
-    pre = describe(ms, name, full=False)
-    inserted_here = any(name in sc.new for sc in ms.tx)
+def path_problem(before, after, evs, op, pre, inserted_here, is_rollback):
+    """(2): events must form a path of the documented machine from before to after.
+    pre: description of the object before the op; inserted_here: it was INSERTed in a
+    still open transaction scope"""
     cur = before
     for i, e in enumerate(evs):
         src, dst = M.EDGE_OF_EVENT[e]
@@ -284,7 +313,7 @@ def check_step(cfg, hist_, ms, op, max_born):
                 problems.append(("%s: object %s -> %s" % (head, pre, p), "events %r" % got_ev))
                 continue
             is_rb = op[0] in ROLLBACK_OPS or pr.outcome == "flushfail"
-            p = path_problem(st_b, st_a, got_ev, op, ms, n, is_rb)
+            p = path_problem(st_b, st_a, got_ev, op, describe(ms, n, full=False), any(n in sc.new for sc in ms.tx), is_rb)
             if p:
                 culprit[len(problems)] = n
                 problems.append(("%s: %s" % ("rollback" if is_rb else head, p), "object %s -> %s events=%s" % (pre, st_a, got_ev)))
@@ -409,6 +438,116 @@ def make_step(cfg, rec, max_born):
     return step
 
 
+
+# ------------------------------------------------------------------ cascade worlds (model-free)
+
+
+class CLight:
+    """bookkeeping for the cascade worlds: only the savepoint depth (both objects stay held)"""
+
+    __slots__ = ("nsp",)
+
+    def __init__(self, nsp=0):
+        self.nsp = nsp
+
+    def canon(self):
+        return (self.nsp,)
+
+
+def enabled_cascade(ms):
+    ops = [
+        ("append_if", "p", "children", "c"), ("add", "p", "auto"), ("add", "c", "auto"), ("flush",), ("expire", "p"), ("refresh", "p"),
+        ("remove_if", "p", "children", "c"), ("expunge", "p"), ("expunge", "c"), ("delete_live", "p"), ("delete_live", "c"),
+        ("commit",), ("rollback",),
+    ]
+    if ms.nsp < 1:
+        ops.append(("begin_nested",))
+    else:
+        ops.append(("sp_rollback",))
+    return ops
+
+
+def impl_inserted(w):
+    """names of objects INSERTed in a still open transaction scope (read from the Session)"""
+    out = set()
+    t = w.session._transaction
+    while t is not None:
+        for st in list(t._new):
+            o = st.obj()
+            if o is not None and o.__dict__.get("_vf_name"):
+                out.add(o.__dict__["_vf_name"])
+        t = t._parent
+    return out
+
+
+def check_step_free(cfg, hist_, ms, op):
+    w = build(cfg, hist_)
+    try:
+        before = w.lifecycle()
+        inserted = impl_inserted(w)
+        out = w.apply(op)
+        evs = {}
+        for n, e in w.take_events():
+            evs.setdefault(n, []).append(e)
+        after = w.lifecycle()
+        info = dict(before=before, after=after, events=evs, outcome=out.short(), cascade=CASCADE_WORLDS[cfg["world"]][2])
+        problems = []
+        head = opclass(op)
+        if not out.ok and not out.is_sa_error:
+            problems.append(("%s [cascade=%s]: raised %s (not a SQLAlchemy error)" % (head, info["cascade"], out.exc_name), out.short()))
+        failed = not out.ok and not w.session.is_active
+        is_rb = op[0] in ROLLBACK_OPS or failed
+        for n in sorted(after):
+            st_b, st_a, got_ev = before.get(n), after[n], evs.get(n, [])
+            p = membership_problem(w, n, st_a) if w.session.is_active else None
+            if p and op[0] == "delete_live" and n != op[1] and st_b == D:
+                problems.append(
+                    ("delete: the delete cascade re-registered an object that is already in the deleted state (back in identity_map / Session.deleted)", p)
+                )
+                continue
+            if p:
+                problems.append(("%s: object %s -> %s" % (head, st_b, p), "events %r" % got_ev))
+                continue
+            p = path_problem(st_b, st_a, got_ev, op, st_b, n in inserted, is_rb)
+            if p and op[0] == "expunge" and n != op[1] and st_b in (T, DT) and got_ev:
+                p = "the expunge cascade reached an object that is not in the session and fired a lifecycle event for it"
+            if p:
+                problems.append(("%s: %s" % ("rollback" if is_rb else head, p), "object %s -> %s events=%s" % (st_b, st_a, got_ev)))
+        canon = None
+        if not problems and not failed:
+            canon = W.deep_canon(w)
+        return problems, CLight(len(w.sps)), canon, info, failed
+    finally:
+        w.close()
+
+
+def make_step_free(cfg, rec):
+    def step(hist_, ms, op):
+        problems, m2, canon, info, failed = check_step_free(cfg, hist_, ms, op)
+        changed = any(info["before"].get(n) != s_ for n, s_ in info["after"].items()) or bool(info["events"])
+        rec.case((cfg["world"], cfg["eoc"], hist_[-3:], op), nontrivial=changed)
+        for n, s_ in info["after"].items():
+            edge = (info["before"].get(n), s_, tuple(info["events"].get(n, ())))
+            if edge[0] != edge[1] or edge[2]:
+                rec.outcome((cfg["world"], opclass(op), n, edge))
+                rec.count("edge %s -> %s via %s" % (edge[0], edge[1], ",".join(edge[2]) or "no event"))
+                if n == "c" and op[0] not in ("add", "expunge", "delete_live") or (n == "c" and op[1:2] == ("p",)):
+                    rec.count("cascade-driven transitions of the child")
+        if problems:
+            sig, detail = problems[0]
+            case = dict(world=cfg["world"], eoc=cfg["eoc"], history=[list(h) for h in hist_], op=list(op))
+            rec.violation("C35 " + sig, "%s\nhistory: %s\nop: %s\nobserved: %s" % (detail, case["history"], list(op), info), case)
+            return None
+        if failed:
+            rec.count("histories ending in a failed flush (not continued)")
+            return None
+        if changed and len(hist_) >= 2 and len(info["events"]) >= 2:
+            rec.sample(dict(world=cfg["world"], cascade=info["cascade"], history=[list(h) for h in hist_], op=list(op), before=info["before"], after=info["after"], events=info["events"]), limit=2)
+        return m2, (cfg["world"], cfg["eoc"], m2.canon(), canon)
+
+    return step
+
+
 # ------------------------------------------------------------------ driver
 
 
@@ -419,12 +558,26 @@ def shards(tier, seed):
 
 
 SHARD_TIMEOUT = dict(quick=3600, thorough=6 * 3600)
-WARM = [
-    ("add", "x", None), ("flush",), ("set", "x", "name", "w"), ("flush",), ("query", "Plain"), ("begin_nested",),
-    ("merge", "Plain", (("id", 1), ("name", "m"))), ("sp_commit",), ("commit",), ("set", "x", "name", "v"),
-    ("delete", "x"), ("flush",), ("rollback",), ("expunge", "x"), ("close",),
-]
-CONFIGS = [(w, e) for w in ("single", "twin", "seeded") for e in (True, False)]
+
+
+def warm_history(cfg):
+    if cfg["world"] in CASCADE_WORLDS:
+        return [("append_if", "p", "children", "c"), ("add", "p", "auto"), ("flush",), ("expire", "p"), ("refresh", "p"), ("remove_if", "p", "children", "c"),
+                ("flush",), ("commit",), ("delete_live", "p"), ("flush",), ("rollback",), ("expunge", "p")]
+    cls = cfg["cls"]
+    return [
+        ("add", "x", None), ("flush",), ("set", "x", "name", "w"), ("flush",), ("query", cls), ("begin_nested",),
+        ("merge", cls, (("id", 1), ("name", "m"))), ("sp_commit",), ("commit",), ("set", "x", "name", "v"),
+        ("delete", "x"), ("flush",), ("rollback",), ("expunge", "x"), ("close",),
+    ]
+
+
+CONFIGS = dict(
+    quick=[(w, e) for w in ("single", "twin", "seeded") for e in (True, False)]
+    + [("single_noaf", True), ("falsy", True), ("falsylen", True), ("casc_su", True), ("casc_all", True), ("casc_do", True)],
+    thorough=[(w, e) for w in ("single", "twin", "seeded", "single_noaf", "falsy") for e in (True, False)]
+    + [("falsylen", True), ("casc_su", True), ("casc_all", True), ("casc_all", False), ("casc_do", True), ("casc_do", False)],
+)
 
 
 def run_shard(shard, tier, rec):
@@ -432,10 +585,17 @@ def run_shard(shard, tier, rec):
     gc.freeze()
     jobs = W.jobs_from_argv()
     try:
-        for world, eoc in CONFIGS:
+        for world, eoc in CONFIGS[tier]:
             cfg = make_cfg(world, eoc)
-            max_born = BORN[tier][world]
             depth = DEPTH[tier][world]
+            if world in CASCADE_WORLDS:
+                d = W.explore_levels(
+                    rec, ID, [((), CLight(), (world, eoc, "root"))], enabled_cascade, lambda r, cfg=cfg: make_step_free(cfg, r), depth, jobs,
+                    warm=[(cfg, warm_history(cfg))], ctx=dict(world=world, eoc=eoc),
+                )
+                rec.count("depth completed %s eoc=%s" % (world, eoc), d)
+                continue
+            max_born = BORN[tier][world]
             ms0 = C35Model(cfg)
             w0 = build(cfg, ())
             try:
@@ -446,11 +606,11 @@ def run_shard(shard, tier, rec):
                 rec,
                 ID,
                 [((), ms0, key0)],
-                lambda ms, max_born=max_born: enabled(ms, max_born),
+                lambda ms, max_born=max_born, cls=cfg["cls"]: enabled(ms, max_born, cls),
                 lambda r, cfg=cfg, max_born=max_born: make_step(cfg, r, max_born),
                 depth,
                 jobs,
-                warm=[(cfg, WARM)],
+                warm=[(cfg, warm_history(cfg))],
                 ctx=dict(world=world, eoc=eoc, max_born=max_born),
             )
             rec.count("depth completed %s eoc=%s" % (world, eoc), d)
@@ -481,6 +641,10 @@ def replay(case):
     gc.disable()
     try:
         cfg = make_cfg(case["world"], case["eoc"])
+        if case["world"] in CASCADE_WORLDS:
+            hist_ = tuple(_tuplify(h) for h in case["history"])
+            problems, _, _, info, _ = check_step_free(cfg, hist_, CLight(), _tuplify(case["op"]))
+            return [("C35 " + s_, "%s\nobserved: %s" % (d, info)) for s_, d in problems[:1]]
         ms = C35Model(cfg)
         hist_ = tuple(_tuplify(h) for h in case["history"])
         for h in hist_:
